@@ -479,7 +479,7 @@ Inductive J : sched -> mon -> Prop :=
  | Jrun f q n r sn stt m x : PlOK f -> pc_ok q = true -> q <> Mixed.PDone -> stack_ok sn -> mon_ok m -> MInv (toM q n r sn) x ->
      RxM stg x (mx m) -> NNm x -> (forall v, MixInv.fwd x = Some v -> v = n) -> 0 <= n ->
      J (xsched f (mst q n r sn false) false stt) m
- | Jdone f ms fin stt m : (fin = true \/ Mixed.pcv ms = Mixed.PDone) -> mon_ok m -> fwd_total (cnt (mx m)) = C3 N S_ ->
+ | Jdone f ms fin stt m : (fin = true \/ Mixed.pcv ms = Mixed.PDone) -> Mixed.exhausted ms = true -> mon_ok m -> fwd_total (cnt (mx m)) = C3 N S_ ->
      J (xsched f ms fin stt) m.
 
 (* facts read off the invariant *)
@@ -506,7 +506,7 @@ Qed.
 
 Lemma J_step sch m : J sch m -> mon_ok m -> good_step pmxN J sch m.
 Proof.
-  intros HJ _. unfold good_step. inversion HJ as [f q n r sn stt m0 x Hf Hq Hnd Hsn Hm HI HR HNN Hfw Hn0|f ms fin stt m0 Hfin Hm Htot]; subst; clear HJ.
+  intros HJ _. unfold good_step. inversion HJ as [f q n r sn stt m0 x Hf Hq Hnd Hsn Hm HI HR HNN Hfw Hn0|f ms fin stt m0 Hfin Hexd Hm Htot]; subst; clear HJ.
   - pose proof (MixInv.step_ok plan3 C3 plan3_1 plan3_ge2 C3_1 C3_ics C3_adj N S_ stg stg_cp (toM q n r sn) x 0%nat HI) as Hgood.
     unfold MixInv.Good in Hgood.
     destruct (MixInv.resume plan3 N S_ stg 3 (toM q n r sn)) as [t' o] eqn:Eres.
@@ -552,7 +552,7 @@ Proof.
     + split; [reflexivity|].
       destruct e' eqn:Ee.
       * (* EndReverse: done *)
-        apply Jdone; [right; apply Hed; reflexivity|reflexivity|].
+        apply Jdone; [right; apply Hed; reflexivity|reflexivity|reflexivity|].
         cbn [mx]. destruct HR' as (_ & _ & _ & _ & _ & _ & _ & Rtot). rewrite Rtot.
         apply (MixInv.done_total plan3 C3 N S_ _ x' HI'). unfold toM. cbn [MixInv.pcv]. rewrite (proj1 Hed eq_refl). reflexivity.
       * apply (Jrun f q' n' r' sn' true _ x'); auto; try reflexivity.
@@ -567,6 +567,29 @@ Proof.
     + destruct Hfin as [Hfin|Hfin]; [discriminate|].
       destruct ms as [q n r sn e]. cbn [Mixed.pcv] in Hfin. subst q. cbn [Mixed.resume Mixed.pcv].
       apply Jdone; auto.
+Qed.
+
+(* C09 flags on the Mixed machine *)
+Definition is_endrev (a : action) : bool := match a with EndReverse => true | _ => false end.
+Lemma J_flags sch m : J sch m -> flag_rule is_endrev (fst (Sched.next sch)) (snd (Sched.next sch)).
+Proof.
+  intros HJ. split; [apply next_started|].
+  inversion HJ as [f q n r sn stt m0 x Hf Hq Hnd Hsn Hm HI HR HNN Hfw Hn0|f ms fin stt m0 Hfin Hexd Hm Htot]; subst; clear HJ.
+  - pose proof (MixInv.step_ok plan3 C3 plan3_1 plan3_ge2 C3_1 C3_ics C3_adj N S_ stg stg_cp (toM q n r sn) x 0%nat HI) as Hgood.
+    unfold MixInv.Good in Hgood.
+    destruct (MixInv.resume plan3 N S_ stg 3 (toM q n r sn)) as [t' o] eqn:Eres.
+    destruct o as [a| |]; [| |contradiction].
+    2:{ exfalso. unfold toM in Hgood. cbn [MixInv.pcv] in Hgood. destruct q as [stype| | | | | |]; cbn [pcM pc_ok] in *; try discriminate; try congruence.
+        destruct stype; discriminate. }
+    destruct (Inv_facts q n r sn x HI Hq) as (Hrr & Hr & Hlen & Htop).
+    destruct (resume_agrees N S_ stg f Hf 3 q n r sn false t' a Hq Hsn Hlen ltac:(lia) Hn0 (fun E => proj2 (Htop E)) Eres)
+      as (q' & n' & r' & sn' & e' & Hon & _ & _ & _ & He' & _).
+    unfold Sched.next, xsched. cbn [ob]. change {| Mixed.max_n := N; Mixed.snapshots := S_; Mixed.stg := stg; Mixed.plan := f |} with (cfgM N S_ stg f).
+    rewrite Hon. cbn [fst snd is_exhausted ob mst Mixed.exhausted]. rewrite He'. destruct a; reflexivity.
+  - unfold Sched.next, xsched. cbn [ob]. destruct fin.
+    + cbn [fst snd is_exhausted ob]. exact Hexd.
+    + destruct Hfin as [Hfin|Hfin]; [discriminate|].
+      destruct ms as [q n r sn e]. cbn [Mixed.pcv] in Hfin. subst q. cbn [Mixed.resume Mixed.pcv fst snd is_exhausted ob]. exact Hexd.
 Qed.
 
 (* both planner paths are correct on every sub-problem the iterator asks for *)
@@ -606,10 +629,40 @@ Proof.
   - pose proof (run_nexts pmxN J J_step k _ _ HJ0 eq_refl) as H.
     destruct (run_ops pmxN sch1 mon0 (repeat Next k)) as [[s' m'] ls]. destruct H as (HJ & H1 & H2).
     split; [assumption|]. split; [assumption|].
-    intros He. inversion HJ as [f0 q n r sn stt m0 x Hf0 Hq Hnd Hsn Hm HI HR HNN Hfw Hn0|f0 ms fin stt m0 Hfin Hm Htot]; subst.
+    intros He. inversion HJ as [f0 q n r sn stt m0 x Hf0 Hq Hnd Hsn Hm HI HR HNN Hfw Hn0|f0 ms fin stt m0 Hfin Hexd Hm Htot]; subst.
     + cbn [is_exhausted xsched ob mst Mixed.exhausted] in He. discriminate.
     + exact Htot.
   - cbn [repeat run_ops]. repeat split; [constructor|]. intros He. cbn in He. discriminate.
+Qed.
+Theorem mixed_cfg_flags : forall k,
+  let '(_, _, ls) := run_ops pmxN sch0 mon0 (repeat Next k) in Forall (line_fl (flag_rule is_endrev)) ls.
+Proof.
+  intros k.
+  assert (Hf : exists f, PlOK f /\ Sched.next sch0 = Sched.next (xsched f (Mixed.mk (Mixed.PInner KNone) 0 0 [] false) false false)).
+  { destruct tab eqn:Et.
+    - destruct (TabSim.tabulate_planC N S_ HN HS0) as (t & Ht & Hcells).
+      exists (tget t). split; [intros m kk Hm Hk HkS; apply Hcells; lia|].
+      unfold Sched.next, sch0, xsched. cbn [ob]. rewrite Et, Ht. reflexivity.
+    - exists (memo_warm N S_). split; [exact PlOK_memo|].
+      unfold Sched.next, sch0, xsched. cbn [ob]. rewrite Et. reflexivity. }
+  destruct Hf as (f & Hf & Hnext).
+  set (sch1 := xsched f (Mixed.mk (Mixed.PInner KNone) 0 0 [] false) false false) in *.
+  assert (HJ0 : J sch1 mon0).
+  { apply (Jrun f (Mixed.PInner KNone) 0 0 [] false mon0 MixInv.init_x); try reflexivity; try discriminate; try lia.
+    - exact Hf.
+    - constructor.
+    - exact (MixInv.inv_init plan3 C3 N S_ HN HS HS0).
+    - unfold RxM, x0, MixInv.init_x, mon0. cbn [mx fwd w_ics w_deps rr seen_endfwd cnt c0 fwd_total MixInv.fwd MixInv.wics MixInv.wdeps MixInv.rr MixInv.endfwd MixInv.store MixInv.done map].
+      repeat split; auto; destruct stg_cp as [E|E]; rewrite E; reflexivity.
+    - unfold NNm, MixInv.init_x. cbn [MixInv.fwd MixInv.wdeps MixInv.store MixInv.rr MixInv.lookup]. repeat split; try discriminate; try lia.
+      intros v Hv; injection Hv as <-; lia.
+    - intros v Hv. cbn in Hv. injection Hv as <-. reflexivity. }
+  assert (Hsame : run_ops pmxN sch0 mon0 (repeat Next k) = run_ops pmxN sch1 mon0 (repeat Next k) \/ k = O).
+  { destruct k as [|k]; [right; reflexivity|left]. cbn [repeat run_ops]. rewrite Hnext. reflexivity. }
+  destruct Hsame as [-> | ->].
+  - pose proof (run_nexts_fl pmxN J (flag_rule is_endrev) (fun s m HJ Hm => conj (J_step s m HJ Hm) (J_flags s m HJ)) k _ _ HJ0 eq_refl) as H.
+    destruct (run_ops pmxN sch1 mon0 (repeat Next k)) as [[s' m'] ls]. destruct H as (_ & _ & _ & H). exact H.
+  - cbn [repeat run_ops]. constructor.
 Qed.
 End RUN.
 
@@ -627,3 +680,18 @@ Proof.
   eexists _, _, _. split; [reflexivity|]. split; assumption.
 Qed.
 Print Assumptions mixed_run.
+
+Theorem mixed_flags N s sg (tab : bool) k : 1 <= N -> 0 <= s -> (2 <= N -> 1 <= s) -> sg = RAM \/ sg = DISK ->
+  exists o0 m ls, run_case (PMixed N s sg tab) (pmx N (Z.min s (N - 1)) sg) (repeat Next k) = Ok (o0, m, ls) /\
+     Forall (line_fl (flag_rule is_endrev)) ls.
+Proof.
+  intros HN Hs0 Hs Hsg. unfold run_case, Sched.construct, Mixed.construct.
+  destruct (Z.ltb_spec s (Z.min 1 (N - 1))); [lia|].
+  assert (Hc : match sg with RAM | DISK => if N <? 1 then Err ValueError else Ok (Z.min s (N - 1)) | _ => Err ValueError end = Ok (Z.min s (N - 1))).
+  { destruct (Z.ltb_spec N 1); [lia|]. destruct Hsg as [-> | ->]; reflexivity. }
+  rewrite Hc. cbn [bind].
+  pose proof (mixed_cfg_flags N (Z.min s (N - 1)) sg tab HN ltac:(lia) ltac:(lia) Hsg k) as Hrun. unfold sch0 in Hrun.
+  destruct (run_ops _ _ mon0 (repeat Next k)) as [[s' m'] ls].
+  eexists _, _, _. split; [reflexivity|]. exact Hrun.
+Qed.
+Print Assumptions mixed_flags.
